@@ -401,4 +401,4 @@ Fixpoint wf_tptp (f : formula) : bool :=
   | FQ _ vs g => negb (Nat.eqb (List.length vs) 0) && forallb (fun v => is_upper_word (vname v)) vs && wf_tptp g
   end.
 
-(* EXTRACT: tptp_print tptp_format tff_of_formula tff_read print_formula no_panic read_formula wf_tptp *)
+(* EXTRACT: tptp_print tptp_format tff_of_formula tff_read print_formula no_panic read_formula wf_tptp tff_of_var *)
